@@ -112,3 +112,66 @@ _gate("add_constraint_eq_NOR", "opden(a) == 1 - orf(variables)", (2, 3), first="
 _gate("add_constraint_eq_XNOR", "opden(a) == 1 - xorf(variables)", (2, 3), first="a")
 _gate1("add_constraint_eq_BUFFER", "opden(a) == opden(b)", two=True)
 _gate1("add_constraint_eq_NOT", "opden(a) == 1 - opden(b)", two=True)
+
+# ---------------------------------------------------------------------------------- inequality constraints (C02)
+# n := self._ancilla - old(self._ancilla) ancillas '__a<a0>'.. are created; the ghost assignment covers them.
+# Clause (2) "min over a of F = 0 when the relation holds" is stated in witness form: for the log-trick slack,
+# if the ancilla bits encode -P(x) (slackval == -bden(P)) then F == 0; that such a setting exists for every integer
+# in [0, cap] is lemma L6 (assumed, exercised by the bounded clauses). The unary (log_trick=False) witness is
+# bounded only, because the unary special form encodes a different quantity in its ancillas.
+contract("qubovert.utils._binary_helpers:num_bits", props=["C02"], trusted=True,
+         instances=[{"val": "real", "log_trick": "bool"}],
+         raises=[("ValueError", "val < 0")], returns="int",
+         ensures=["result >= 0", "slackcap(result, log_trick) >= val", "implies(val == 0, result == 0)"],
+         note="L8: 2^bit_length(ceil v) - 1 >= v, resp. ceil(v) >= v; int.bit_length / math.ceil are outside qvc")
+
+_N = "(self._ancilla - old(self._ancilla))"
+contract(M + "_special_constraints_le_zero", props=["C02"], trusted=True,
+         instances=[{"pcbo": "model:PCBO", "P": "model:PUBO", "lam": "real", "log_trick": "bool", "bounds": "tuple:real,real"}],
+         returns="bool", modifies=["pcbo"],
+         ensures=["implies(not result, same_store(pcbo, old(store(pcbo))) and pcbo._ancilla == old(pcbo._ancilla))",
+                  "implies(result, den(pcbo) - old(den(pcbo)) >= 0)",
+                  "implies(result and bden(P) > 0, den(pcbo) - old(den(pcbo)) >= lam)",      # special forms never warn
+                  "implies(result and bden(P) <= 0 and pcbo._ancilla == old(pcbo._ancilla), den(pcbo) == old(den(pcbo)))",
+                  "implies(result and log_trick, pcbo._ancilla == old(pcbo._ancilla))",
+                  "pcbo._ancilla >= old(pcbo._ancilla)", "wf(pcbo)"],
+         note="the four syntactic special forms of <= (sum <= 1, unary slack, OR form, x <= y) read key order and exact "
+              "coefficient patterns: contract assumed, checked by the bounded clause C02.special_forms")
+
+
+def _ineq(name, holds, loops=None):
+    contract(M + "PCBO." + name, props=["C02", "C19"],
+             instances=[{"self": "model:PCBO", "P": p, "lam": "real", "log_trick": "bool", "bounds": b,
+                         "suppress_warnings": "const:False"}
+                        for p in ("termdict", "model:PUBO", "model:PCBO") for b in ("none", "tuple:real,real", "tuple:none,real")],
+             requires=["wf(self)", "lam > 0", "isint(bden(P))", "encloses(bounds, bden(P))",
+                       "wf(P) if not typeis(P, 'dict') else True", "distinct(self, P)"],
+             returns="param:self", modifies=["self"],
+             ensures=[_F + " >= 0",
+                      "implies(not (%s) and not warned_unsat(), %s >= lam)" % (holds, _F),
+                      "implies((%s) and %s == 0, %s == 0)" % (holds, _N, _F),
+                      "implies((%s) and log_trick and slackval(old(self._ancilla), %s, True) == %s, %s == 0)"
+                      % (holds, _N, "{WIT}", _F),
+                      "self._ancilla >= old(self._ancilla)", "wf(self)", "result is self"],
+             loops=loops or {})
+
+
+# placeholder substitution of the witness value per relation
+def _ineq2(name, holds, wit, loops=None):
+    _ineq(name, holds, loops)
+    from vf.qvc.contracts import REGISTRY
+    c = REGISTRY[M + "PCBO." + name]
+    c.ensures = [e.replace("{WIT}", wit) for e in c.ensures]
+
+
+_ineq2("add_constraint_le_zero", "bden(P) <= 0", "-bden(P)",
+       loops={1: {"invariant": "bden(P) == pre(bden(P)) + slackval(pre(self._ancilla), visited, log_trick) and "
+                               "max_val == pre(max_val) + slackcap(visited, log_trick) and "
+                               "self._ancilla == pre(self._ancilla) + visited and wf(P) and "
+                               "slackval(pre(self._ancilla), visited, log_trick) >= 0 and "
+                               "slackval(pre(self._ancilla), visited, log_trick) <= slackcap(visited, log_trick) and "
+                               "slack_next(pre(self._ancilla), visited, log_trick) == slack_next(pre(self._ancilla), visited, log_trick)",
+                  "modifies": ["self._ancilla"]}})
+_ineq2("add_constraint_lt_zero", "bden(P) < 0", "-bden(P) - 1")
+_ineq2("add_constraint_ge_zero", "bden(P) >= 0", "bden(P)")
+_ineq2("add_constraint_gt_zero", "bden(P) > 0", "bden(P) - 1")
